@@ -174,6 +174,9 @@ func TestProp(t *testing.T) {
 		}
 		runConfig(t, rep, env, ci, perConfig, only)
 	}
+	if only < 0 {
+		runCrossUpstream(rep, env)
+	}
 	rep.Extra("wall_workload_s", time.Since(start).Seconds())
 	rep.Floor("backend_hits_authorised", 20)
 	rep.Floor("backend_hits_skip_auth", 20)
@@ -526,4 +529,116 @@ func runConfig(t *testing.T, rep *vh.Report, env vh.Env, ci, perConfig, only int
 	if ps.ErrLog.Panics() > 0 {
 		rep.Count("handler_panics", ps.ErrLog.Panics())
 	}
+}
+
+
+// runCrossUpstream drives overlapping requests of ONE user (same tokens) against TWO upstreams with
+// different policies while both sessions have a check due: the authenticator holds its answer so
+// that the two provider calls overlap. Each upstream must still decide under its own policy (the
+// provider calls of different upstreams must not be answered for each other). This block was
+// added after an independently seeded change (one provider instance shared by all upstreams, so
+// that request coalescing merges calls across upstreams) was missed by the one-request-at-a-time
+// decision table above.
+func runCrossUpstream(rep *vh.Report, env vh.Env) {
+	ps, err := sut.NewProxyStack(sut.ProxyOpts{Upstreams: []sut.UpstreamSpec{
+		{Service: "open", From: "open.sso.test", AllowedEmailDomains: []string{"corp.test"}},
+		{Service: "staff", From: "staff.sso.test", AllowedGroups: []string{"staff"}},
+		{Service: "admin", From: "admin.sso.test", AllowedGroups: []string{"secret-admins"}},
+	}})
+	if err != nil {
+		rep.Inconclusive("cross-upstream stack did not start: " + err.Error())
+		return
+	}
+	defer ps.Close()
+	n := env.Pick(60, 900)
+	vh.ForEach(n, 8, -1, func(i int) {
+		r := vh.CaseRNG(env.Seed, "c01-cross", i)
+		permitted := []string{"open.sso.test", "staff.sso.test"}[r.Intn(2)]
+		denied := "admin.sso.test"
+		refreshDue := r.Intn(2) == 0
+		deniedFirst := r.Intn(3) == 0
+		uid := sut.NewID()
+		email := "user" + uid + "@corp.test"
+		mk := func(host string) (string, string, string) {
+			s := ps.Session(host, email, []string{"staff"})
+			s.AccessToken, s.RefreshToken = "xat-"+uid, "xrt-"+uid
+			s.ValidDeadline = time.Now().Add(-5 * time.Minute)
+			if refreshDue {
+				s.RefreshDeadline = time.Now().Add(-5 * time.Minute)
+			}
+			return ps.CookieName + "=" + ps.Seal(s), s.AccessToken, s.RefreshToken
+		}
+		cp, at, rt := mk(permitted)
+		cd, _, _ := mk(denied)
+		hold := make(chan struct{})
+		nt := "xnt-" + uid
+		primary, key := "validate", at
+		if refreshDue {
+			primary, key = "refresh", rt
+			a := sut.RefreshOK(nt, 3600)
+			a.Hold = hold
+			ps.Auth.Set("refresh", rt, a)
+		} else {
+			a := sut.ValidateOK()
+			a.Hold = hold
+			ps.Auth.Set("validate", at, a)
+		}
+		// the directory says: member of "staff", not of "secret-admins"
+		ps.Auth.Set("profile", at, sut.ProfileOK(email, []string{"staff", "everyone"}))
+		ps.Auth.Set("profile", nt, sut.ProfileOK(email, []string{"staff", "everyone"}))
+		defer func() {
+			ps.Auth.Unset(primary, key)
+			ps.Auth.Unset("profile", at)
+			ps.Auth.Unset("profile", nt)
+		}()
+		first, second := permitted, denied
+		c1, c2 := cp, cd
+		if deniedFirst {
+			first, second, c1, c2 = denied, permitted, cd, cp
+		}
+		type res struct {
+			host string
+			rs   *sut.Resp
+		}
+		out := make(chan res, 2)
+		go func() { out <- res{first, ps.Client.Do(sut.Req{Host: first, Target: "/x/" + uid, Cookies: []string{c1}})} }()
+		overlapped := false
+		for w := 0; w < 2000; w++ {
+			if ps.Auth.MaxInflight(primary, key) >= 1 {
+				overlapped = true
+				break
+			}
+			time.Sleep(time.Millisecond)
+		}
+		go func() { out <- res{second, ps.Client.Do(sut.Req{Host: second, Target: "/x/" + uid, Cookies: []string{c2}})} }()
+		time.Sleep(time.Duration(5+r.Intn(20)) * time.Millisecond)
+		close(hold)
+		rep.Eval()
+		for k := 0; k < 2; k++ {
+			x := <-out
+			if x.rs.Err != nil {
+				rep.Count("client_errors", 1)
+				continue
+			}
+			hits := ps.Hits(x.rs.ID)
+			served := len(hits) > 0 || strings.Contains(string(x.rs.Body), "UPSTREAM-CONTENT-")
+			kc := map[string]interface{}{"index": i, "permitted_host": permitted, "denied_host": denied, "check_due": primary, "denied_request_first": deniedFirst, "host": x.host, "status": x.rs.Status, "served": served}
+			if x.host == denied {
+				if served {
+					rep.Violate("c01-cross", i, "backend-reached-unauthorised failing=allow-rules overlapping-request-on-other-upstream due="+primary,
+						"a user outside the upstream's allowed groups reached it while the same user's session on another upstream was being re-checked at the same time", kc)
+				} else {
+					rep.Count("cross_upstream_denied_refused", 1)
+				}
+			} else if served {
+				rep.Count("cross_upstream_permitted_served", 1)
+			}
+		}
+		if overlapped {
+			rep.Count("cross_upstream_pairs_overlapped", 1)
+			rep.Distinct(fmt.Sprintf("cross|%s|%s|deniedFirst=%v", permitted, primary, deniedFirst))
+		}
+	})
+	rep.Floor("cross_upstream_pairs_overlapped", 20)
+	rep.Floor("cross_upstream_denied_refused", 20)
 }
